@@ -92,16 +92,19 @@ def run_case(case):
     tol, mx_final = c["tol"], c["max_evaluations"]
     key = {"strategy": strat.split("_")[0]}
     fails = []
-    sa, eo, lm, op, ref, seen, nrm = c13._make(strat, kind, norm)
+    wr = c.get("reference", True)
+    if not wr:
+        key["reference"] = False
+    sa, eo, lm, op, ref, seen, nrm = c13._make(strat, kind, norm, with_reference=wr)
     U = sa.performSpatiallyAdaptiv(lm[0], lm[1], eo, tol=tol, max_evaluations=mx_final, print_output=False)
     u = _final(sa, U, strat)
     nk = [int(x) for x in U[6]]
     if "stop_at" not in c:        # baseline: report the evaluation indices of the uninterrupted run
-        return {"failures": fails, "canon": ("U", strat, kind, norm), "outcome": tuple(nk), "nk": nk, "nontrivial": len(nk) > 1}
+        return {"failures": fails, "canon": ("U", strat, kind, norm, tol, mx_final, wr), "outcome": tuple(nk), "nk": nk, "nontrivial": len(nk) > 1}
     k = c["stop_at"]
     variant = c["variant"]
     key["variant"] = variant
-    sa2, eo2, lm, op2, ref, seen2, nrm = c13._make(strat, kind, norm)
+    sa2, eo2, lm, op2, ref, seen2, nrm = c13._make(strat, kind, norm, with_reference=wr)
     A = sa2.performSpatiallyAdaptiv(lm[0], lm[1], eo2, tol=tol, max_evaluations=nk[k] - 1, print_output=False)
     if [int(x) for x in A[6]] != nk[:k + 1]:
         raise core.HarnessError("interrupted run did not stop at evaluation %d: %r vs %r" % (k, list(A[6]), nk))
@@ -137,8 +140,8 @@ def run_case(case):
             os.remove(path)
         R = sa3.continue_adaptive_refinement(tol=tol, max_evaluations=mx_final)
         _compare(u, _final(sa3, R, strat), "stop at %d, %s" % (k, variant), key, fails)
-    return {"failures": fails, "canon": (strat, kind, norm, k, variant), "outcome": (k, len(nk), variant, not fails),
-            "nontrivial": 0 < k < len(nk) - 1}
+    return {"failures": fails, "canon": (strat, kind, norm, tol, mx_final, wr, k, variant), "outcome": (k, len(nk), variant, not fails),
+            "nontrivial": 0 < k}
 
 
 def main(ctx):
@@ -148,12 +151,16 @@ def main(ctx):
     finals = [(1e-9, 80)] if q else [(1e-9, 80), (1e-9, 160), (1e-2, 300)]
     base = [{"config": {"strategy": s, "integrand": k, "norm": "inf", "tol": tol, "max_evaluations": mx}}
             for s in strategies for k in kinds for tol, mx in finals]
+    # without a reference solution the run stops on the surplus error estimate: tolerances that end the run by tolerance
+    noref = [(0.05, 400), (0.02, 400)] if q else [(0.05, 400), (0.02, 400), (0.01, 600)]
+    base += [{"config": {"strategy": s, "integrand": k, "norm": "inf", "tol": tol, "max_evaluations": mx, "reference": False}}
+             for s in (["dw", "es", "cell"] if q else strategies) for k in kinds[:2] for tol, mx in noref]
     ctx.determinism_probe(dict(config=dict(base[0]["config"], stop_at=1, variant="continue")))
     cases = []
     for bc, res in zip(base, ctx.map(base, chunksize=1)):
         ctx.absorb(bc, res, group="uninterrupted")
         nk = res.get("nk") or []
-        for k in range(len(nk) - 1):           # stopping at the last evaluation is the uninterrupted run itself
+        for k in range(len(nk)):               # incl. the last index: a run stopped there by max_evaluations, then continued with the final limits
             for variant in ("continue", "save_restore_continue", "save_continue_original_then_copy", "perform_with_refinement_container"):
                 cases.append({"config": dict(bc["config"], stop_at=k, variant=variant)})
     results = ctx.map(cases, chunksize=1)
